@@ -72,12 +72,16 @@ func (q qiEncoder) value(v reflect.Value) error {
 		return basic.WriteBool(v.Bool(), q.w)
 	case reflect.String:
 		return basic.WriteString(v.String(), q.w)
+	case reflect.Int8:
+		return basic.WriteInt8(int8(v.Int()), q.w)
 	case reflect.Int16:
 		return basic.WriteInt16(int16(v.Int()), q.w)
 	case reflect.Int32:
 		return basic.WriteInt32(int32(v.Int()), q.w)
 	case reflect.Int64, reflect.Int:
 		return basic.WriteInt64(v.Int(), q.w)
+	case reflect.Uint8:
+		return basic.WriteUint8(uint8(v.Uint()), q.w)
 	case reflect.Uint16:
 		return basic.WriteUint16(uint16(v.Uint()), q.w)
 	case reflect.Uint32:
@@ -147,12 +151,16 @@ func (q qiEncoder) Encode(x interface{}) error {
 		return basic.WriteInt64(int64(v), q.w)
 	case uint:
 		return basic.WriteUint64(uint64(v), q.w)
+	case uint8:
+		return basic.WriteUint8(v, q.w)
 	case uint16:
 		return basic.WriteUint16(v, q.w)
 	case uint32:
 		return basic.WriteUint32(v, q.w)
 	case uint64:
 		return basic.WriteUint64(v, q.w)
+	case int8:
+		return basic.WriteInt8(v, q.w)
 	case int16:
 		return basic.WriteInt16(v, q.w)
 	case int32:
@@ -353,6 +361,12 @@ func (q qiDecoder) value(v reflect.Value) error {
 			return err
 		}
 		v.SetString(s)
+	case reflect.Int8:
+		i, err := basic.ReadInt8(q.r)
+		if err != nil {
+			return err
+		}
+		v.SetInt(int64(i))
 	case reflect.Int16:
 		i, err := basic.ReadInt16(q.r)
 		if err != nil {
@@ -371,6 +385,12 @@ func (q qiDecoder) value(v reflect.Value) error {
 			return err
 		}
 		v.SetInt(i)
+	case reflect.Uint8:
+		i, err := basic.ReadUint8(q.r)
+		if err != nil {
+			return err
+		}
+		v.SetUint(uint64(i))
 	case reflect.Uint16:
 		i, err := basic.ReadUint16(q.r)
 		if err != nil {
@@ -427,6 +447,9 @@ func (q qiDecoder) Decode(x interface{}) (err error) {
 		tmp, err = basic.ReadUint64(q.r)
 		*v = uint(tmp)
 		return err
+	case *uint8:
+		*v, err = basic.ReadUint8(q.r)
+		return err
 	case *uint16:
 		*v, err = basic.ReadUint16(q.r)
 		return err
@@ -435,6 +458,9 @@ func (q qiDecoder) Decode(x interface{}) (err error) {
 		return err
 	case *uint64:
 		*v, err = basic.ReadUint64(q.r)
+		return err
+	case *int8:
+		*v, err = basic.ReadInt8(q.r)
 		return err
 	case *int16:
 		*v, err = basic.ReadInt16(q.r)
